@@ -1120,6 +1120,7 @@ impl<'a> Exec<'a> {
             let dir = self.fresh("ex-all-");
             let mut args = self.base("extract", st);
             let spelled = self.spell_out(&dir);
+            if self.rng.chance(1, 3) { args.push(s("-v")); self.rep.count("extract:-v"); }
             args.extend([s("-o"), spelled]);
             let out = self.run(&args);
             if !out.ok() {
@@ -1172,6 +1173,7 @@ impl<'a> Exec<'a> {
             let dir = self.fresh("ex-one-");
             let mut args = self.base("extract", st);
             let spelled = self.spell_out(&dir);
+            if self.rng.chance(1, 3) { args.push(s("-v")); self.rep.count("extract:-v"); }
             args.extend([s("-o"), spelled, names[k].0.clone()]);
             let out = self.run(&args);
             if !out.ok() {
@@ -1188,6 +1190,7 @@ impl<'a> Exec<'a> {
             let dir = self.fresh("ex-glob-");
             let mut args = self.base("extract", st);
             let spelled = self.spell_out(&dir);
+            if self.rng.chance(1, 3) { args.push(s("-v")); self.rep.count("extract:-v"); }
             args.extend([s("-o"), spelled, s("-g"), pat.clone()]);
             let out = self.run(&args);
             if !out.ok() {
